@@ -71,12 +71,41 @@ def make_jobs(chk):
     return jobs
 
 
+def repl_sessions(chk, exe):
+    """the option itself, through the real binary on a pty: the re-enabled opcodes run with -z / --allow-disabled-opcodes and fail as disabled
+    without it, whatever other options are given (verbose, quiet, flag modifications, debug logging), executed or in a branch not taken"""
+    import repl, concurrent.futures as cf
+    from c09 import RecJob, hx0
+    from drivers import STANDARD
+    O = G.OP
+    scripts = [("cat", bytes([O["1"], O["2"], O["CAT"]])), ("div", bytes([O["6"], O["3"], O["DIV"]])), ("untaken", bytes([0x00, O["IF"], O["MUL"], O["ENDIF"], O["1"]])),
+               ("invert", bytes([O["5"], O["INVERT"]])), ("plain", bytes([O["1"], O["2"], O["ADD"]]))]
+    optsets = [[], ["-v"], ["-q"], ["-f-NULLDUMMY"], ["-v", "-f-NULLDUMMY"], ["-v", "--modify-flags=+SIGPUSHONLY"], ["--debug=sighash"]]
+    tasks = []
+    n = 0
+    for name, script in scripts:
+        for opts in optsets:
+            for z in (False, True):
+                n += 1
+                fl = [f for f in STANDARD if f != "NULLDUMMY"] if any("NULLDUMMY" in o for o in opts) else (sorted(STANDARD + ["SIGPUSHONLY"]) if any("SIGPUSHONLY" in o for o in opts) else STANDARD)
+                op = {"e": "Open", "id": "rz%d:%s:%s:z%d" % (n, name, "_".join(opts) or "none", z), "repl": True, "script": script.hex(), "stack": [], "flags": fl, "sigver": "BASE",
+                      "z": z, "succ": "", "hist": True, "cmp": ["stack", "alt", "cond"], "weight": 0, "pretend": []}
+                argv = opts + (["-z"] if z and n % 2 else ["--allow-disabled-opcodes"] if z else []) + [hx0(script)]
+                tasks.append((op, argv, ["step"] * (len(script) + 1)))
+    def do(t):
+        op, argv, cmds = t
+        return (RecJob(op["id"], op), repl.record(exe, argv, cmds, op))
+    with cf.ThreadPoolExecutor(max_workers=12) as ex:
+        return list(ex.map(do, tasks))
+
+
 def run(chk):
     chk.mc("MC_Extended", "MC_Extended.cfg")
     chk.exhaustive = True
-    chk.build()
+    b_ = chk.build(mains=("btcdeb",))
     jobs = make_jobs(chk) + c01.probes(chk)
     divs = chk.validate("Trace_Session", jobs, "c17")
+    divs += chk.validate_recorded("Trace_Session", repl_sessions(chk, b_.exe("btcdeb")), "c17r")
     chk.classify(divs)
     return chk.finish(rule=RULE, assumptions=ASSUME)
 
